@@ -140,6 +140,14 @@ def corner_cases(reporters=("text", "cute", "xml"), modes=("forked",), which=("s
     if "inproc-exit0" in which:
         root = Suite(0, children=[Test(0, body=[("c", 0), ("die", "exit", 0)]), Test(1, body=[("c", 1)])])
         cases.append((root, "text", "inproc"))
+    if "mock-parameter" in which:
+        # a mocked call that violates its when() clause is one failing check whichever process counts it
+        # (forked, CGREEN_NO_FORK, one test by name)
+        for rep in reporters:
+            for m in ("forked", "inproc", ("single", 1)):
+                root = Suite(0, children=[Test(0, body=[("c", 1)]), Test(1, body=[("c", 1), ("badparam",), ("c", 1)]),
+                                          Test(2, body=[("badparam",)])])
+                cases.append((root, rep, m))
     return cases
 
 
@@ -240,7 +248,7 @@ def runner_cases_C01(chk):
 def check_C03(chk):
     drv = setup(chk, ["Properties_C03.v"])
     n = 12 if chk.tier == "quick" else 250
-    cases = corner_cases(which=("skip-then-die", "die-after-completion")) + chk.code_cases + gen_cases(chk, n, modes=("forked",))
+    cases = corner_cases(which=("skip-then-die", "die-after-completion")) + corner_cases(reporters=("text", "xml"), which=("mock-parameter",)) + chk.code_cases + gen_cases(chk, n, modes=("forked",))
     cases += gen_cases(chk, max(3, n // 4), modes=("inproc",), kinds=[("pass", 4), ("fail", 3), ("empty", 1), ("xensure", 1), ("skiptest", 2), ("mixed", 2)])
     runs, mrs = run_cases(drv, cases)
     correspondence(chk, cases, runs, mrs)
@@ -550,7 +558,7 @@ def check_C04(chk):
         tests = [gen_c.gen_test(chk.rng, i, kinds, fixtures=True, fw_acts=True, poke=True) for i in range(n)]
         for t in tests:       # make the tests sensitive to leaked state
             if not t.skip and chk.rng.random() < 0.7:
-                t.body.append(chk.rng.choice([("figscheck", 7), ("call",), ("peek", 0), ("figscheck", 8), ("setparam",)]))
+                t.body.append(chk.rng.choice([("figscheck", 7), ("call",), ("peek", 0), ("figscheck", 8), ("setparam",), ("badparam",)]))
         perms = list(itertools.permutations(range(n)))
         chk.rng.shuffle(perms)
         perms = perms[:(4 if chk.tier == "quick" else 24)]
@@ -695,7 +703,7 @@ def check_C13(chk):
                              [chk.rng.choice([("figs", 3), ("figs", 12)]), ("mode", chk.rng.choice(["loose", "learning"]))] + \
                              ([("expect",)] if chk.rng.random() < 0.5 else [])
                 elif r < 0.5:
-                    t.body.append(chk.rng.choice([("figscheck", 7), ("call",), ("figscheck", 8), ("mode", "loose"), ("figs", 3)]))
+                    t.body.append(chk.rng.choice([("figscheck", 7), ("call",), ("figscheck", 8), ("mode", "loose"), ("figs", 3), ("badparam",)]))
                 if r < 0.25:
                     t.body.insert(0, ("raw", "expect mocked_c"))     # a successfully mocked call of the function
                     t.body.insert(1, ("raw", "call mocked_c"))       # that other tests call unexpectedly
